@@ -79,6 +79,7 @@ func runC18(c *Ctx, r *Report) {
 	r.need("expandComponents bodies", nBodies, 8)
 	r.need("recognised bit slices", nSlices, 25)
 
+	c18ByteArraySources(c, r)
 	// ---- R3 ---------------------------------------------------------------------------
 	c18Accumulators(c, r)
 }
@@ -368,4 +369,183 @@ func stmtStr(c *Ctx, s ast.Stmt) string {
 		return fmt.Sprintf("%T", s)
 	}
 	return sb.String()
+}
+
+// evalASTInt evaluates an integer expression with Go's typed wrap-around semantics; env maps the
+// printed form of leaf expressions (e.g. "x.F[1]") to values.
+func evalASTInt(info *types.Info, e ast.Expr, env map[string]uint64) (uint64, bool) {
+	e = unparen(e)
+	trunc := func(v uint64, t types.Type) uint64 {
+		w := typeWidth(t)
+		if w > 0 && w < 64 {
+			v &= (1 << uint(w)) - 1
+		}
+		return v
+	}
+	if v, ok := env[exprStr(e)]; ok {
+		return trunc(v, info.TypeOf(e)), true
+	}
+	if v, ok := exprUint(info, e); ok {
+		return v, true
+	}
+	switch n := e.(type) {
+	case *ast.BinaryExpr:
+		a, ok1 := evalASTInt(info, n.X, env)
+		b, ok2 := evalASTInt(info, n.Y, env)
+		if !ok1 || !ok2 {
+			return 0, false
+		}
+		var v uint64
+		switch n.Op {
+		case token.OR:
+			v = a | b
+		case token.AND:
+			v = a & b
+		case token.XOR:
+			v = a ^ b
+		case token.SHL:
+			if b >= 64 {
+				v = 0
+			} else {
+				v = a << b
+			}
+		case token.SHR:
+			if b >= 64 {
+				v = 0
+			} else {
+				v = a >> b
+			}
+		case token.ADD:
+			v = a + b
+		case token.SUB:
+			v = a - b
+		case token.MUL:
+			v = a * b
+		default:
+			return 0, false
+		}
+		return trunc(v, info.TypeOf(e)), true
+	case *ast.CallExpr:
+		if tv, ok := info.Types[n.Fun]; ok && tv.IsType() && len(n.Args) == 1 {
+			if b := basicOf(tv.Type); b == nil || b.Info()&types.IsInteger == 0 || isSigned(b) {
+				return 0, false
+			}
+			v, ok := evalASTInt(info, n.Args[0], env)
+			return trunc(v, tv.Type), ok
+		}
+	}
+	return 0, false
+}
+
+// c18ByteArraySources: components whose source is a byte array (compressed_speed_distance):
+// the source is invalid only when ALL its bytes are 0xFF, and the destinations are the consecutive
+// 12-bit halves of the little-endian 24-bit value.
+func c18ByteArraySources(c *Ctx, r *Report) {
+	info := c.fit.TypesInfo
+	fd := c.decl(c.fn(c.fit, "RecordMsg.expandComponents"))
+	if fd == nil {
+		r.fail("C18-R2-byte-array-source", "RecordMsg.expandComponents", "", "not found")
+		return
+	}
+	const src = "x.CompressedSpeedDistance"
+	// (1) validity guard: flag := false; [if len(src) == 3] for _, v := range src { if v != 0xFF { flag = true; break } }; if flag { ... }
+	var flag string
+	okGuard := false
+	var guarded *ast.IfStmt
+	var walk func(list []ast.Stmt)
+	walk = func(list []ast.Stmt) {
+		for i, s := range list {
+			switch x := s.(type) {
+			case *ast.AssignStmt:
+				if x.Tok == token.DEFINE && len(x.Lhs) == 1 && len(x.Rhs) == 1 && exprStr(x.Rhs[0]) == "false" {
+					flag = exprStr(x.Lhs[0])
+				}
+			case *ast.IfStmt:
+				if flag != "" && exprStr(x.Cond) == flag {
+					guarded = x
+				}
+				walk(x.Body.List)
+			case *ast.RangeStmt:
+				if exprStr(x.X) != src || flag == "" || x.Value == nil {
+					continue
+				}
+				v := exprStr(x.Value)
+				if len(x.Body.List) == 1 {
+					if ifs, ok := x.Body.List[0].(*ast.IfStmt); ok && ifs.Else == nil {
+						if be, ok := unparen(ifs.Cond).(*ast.BinaryExpr); ok && be.Op == token.NEQ && exprStr(be.X) == v {
+							if k, ok := exprUint(info, be.Y); ok && k == 0xFF {
+								sets := false
+								for _, bs := range ifs.Body.List {
+									if as, ok := bs.(*ast.AssignStmt); ok && as.Tok == token.ASSIGN && exprStr(as.Lhs[0]) == flag && exprStr(as.Rhs[0]) == "true" {
+										sets = true
+									}
+								}
+								okGuard = sets
+							}
+						}
+					}
+				}
+				_ = i
+			}
+		}
+	}
+	walk(fd.Body.List)
+	r.check(okGuard && guarded != nil, "C18-R2-byte-array-source", "RecordMsg.expandComponents/csd-validity-guard", c.pos(fd.Pos()), "compressed_speed_distance is expanded iff some byte differs from 0xFF (a byte array is invalid only when all bytes are invalid)", "the validity guard of compressed_speed_distance is not `some byte != 0xFF`: a valid source containing an 0xFF byte is treated as invalid (or an all-invalid one is expanded)")
+	if guarded == nil {
+		return
+	}
+	// (2) the two 12-bit halves
+	var speedE, distE ast.Expr
+	for _, s := range guarded.Body.List {
+		as, ok := s.(*ast.AssignStmt)
+		if !ok || len(as.Lhs) != 1 || len(as.Rhs) != 1 {
+			continue
+		}
+		rhs := unparen(as.Rhs[0])
+		if call, ok := rhs.(*ast.CallExpr); ok {
+			if sel, ok := call.Fun.(*ast.SelectorExpr); ok && sel.Sel.Name == "accumulate" && len(call.Args) == 1 {
+				rhs = call.Args[0]
+			}
+		}
+		switch exprStr(as.Lhs[0]) {
+		case "x.Speed":
+			speedE = rhs
+		case "x.Distance":
+			distE = rhs
+		}
+	}
+	half := func(name string, e ast.Expr, want func(b0, b1, b2 uint64) uint64) {
+		key := "RecordMsg.expandComponents/csd-" + name + "-half"
+		if e == nil {
+			r.fail("C18-R2-byte-array-source", key, c.pos(guarded.Pos()), "no assignment of the "+name+" half of compressed_speed_distance")
+			return
+		}
+		bad := ""
+		n := 0
+		step0, step2 := uint64(1), uint64(85)
+		if name == "distance" {
+			step0, step2 = 85, 1
+		}
+	outer:
+		for b0 := uint64(0); b0 < 256; b0 += step0 {
+			for b1 := uint64(0); b1 < 256; b1++ {
+				for b2 := uint64(0); b2 < 256; b2 += step2 {
+					n++
+					env := map[string]uint64{src + "[0]": b0, src + "[1]": b1, src + "[2]": b2}
+					got, ok := evalASTInt(info, e, env)
+					if !ok {
+						bad = "expression not evaluable: " + exprStr(e)
+						break outer
+					}
+					if w := want(b0, b1, b2); got != w {
+						bad = fmt.Sprintf("for bytes {%#02x,%#02x,%#02x} the %s component is %#x, the 12-bit half of the little-endian value is %#x", b0, b1, b2, name, got, w)
+						break outer
+					}
+				}
+			}
+		}
+		r.check(bad == "", "C18-R2-byte-array-source", key, c.pos(e.Pos()), fmt.Sprintf("%s = the corresponding 12 bits for %d byte triples", name, n), bad)
+	}
+	half("speed", speedE, func(b0, b1, b2 uint64) uint64 { return (b0 | b1<<8 | b2<<16) & 0xFFF })
+	half("distance", distE, func(b0, b1, b2 uint64) uint64 { return ((b0 | b1<<8 | b2<<16) >> 12) & 0xFFF })
 }
